@@ -102,6 +102,9 @@ def main(argv=None):
         t.setdefault('wall_budget', t['budget'] * 2.5 + 60)
         tasks.append(t)
 
+    # longest budgets first (better packing of the worker pool)
+    tasks.sort(key=lambda t: -float(t.get('budget', 60.0)))
+
     def progress(done, total, task, res):
         if a.verbose:
             print('[%d/%d] %-50s %-10s paths=%s %.1fs %s' % (
